@@ -771,6 +771,10 @@ class Session:
             if m == n:
                 m = n + 1
             vals = [1] * m
+            if n >= 2 and (self.pc + n) % 3 == 0:
+                # ONE value that is itself a sequence of n values (what an executemany-style client would send): still one value
+                vals = [tuple(range(n))] if self.pc % 2 else [list(range(n))]
+                m = 1
             try:
                 g = self.planner.execute_steps(vals)
                 # the call (or the first advance) must raise PlanningException
